@@ -32,6 +32,8 @@ pub struct DCfg {
     pub migrations: bool,
     pub bulk_allow: usize,
     pub profile: String,
+    #[serde(default)]
+    pub cp_mode: u8,
 }
 
 #[derive(Clone, Debug, PartialEq)]
@@ -1147,6 +1149,7 @@ impl World for WorldD {
             migrations: rng.chance(1, 2),
             bulk_allow: if prop == "C20" && rng.chance(2, 3) { rng.range(25, 70) as usize } else { 0 },
             profile: prop.to_string(),
+            cp_mode: rng.below(3) as u8,
         };
         serde_json::to_value(cfg).unwrap()
     }
@@ -1194,10 +1197,17 @@ impl World for WorldD {
             Err(_) => (String::new(), false),
         };
         let mut channels = vec![];
+        let w_cfg_cp_mode = cfg.cp_mode;
         if ics_ok {
             for i in 0..cfg.channels {
                 let id = format!("channel-{}", i);
-                let cp = format!("channel-9{}", i);
+                // both chains number their channels from 0: collisions between a counterparty's channel id and one
+                // of our own ids are the norm, not the exception
+                let cp = match w_cfg_cp_mode {
+                    0 => format!("channel-{}", i),
+                    1 => format!("channel-{}", (i + 1) % cfg.channels.max(1)),
+                    _ => format!("channel-9{}", i),
+                };
                 let m = IbcSudo::Connect {
                     channel_id: id.clone(),
                     port: OUR_PORT.into(),
